@@ -91,6 +91,8 @@ MUTANTS = [  # (contract module, qualname, file, regex, replacement, expect)  ex
  ("contracts.c12", "PDAG.to_dag", "pgmpy/base/DAG.py", r"if not dag.has_edge\(Y, X\):", "if True:", "break"),
  ("contracts.c12", "PDAG.to_dag", "pgmpy/base/DAG.py", r"        dag.add_edges_from\(self.directed_edges\)\n", "", "break"),
  ("contracts.c12", "PDAG.to_dag", "pgmpy/base/DAG.py", r"                    pdag.remove_node\(X\)\n", "", "break"),
+ ("contracts.c15", "BayesianNetwork.get_cpds", "pgmpy/models/BayesianNetwork.py", r"                    if cpd.variable == node:\n                        return cpd", "                    if cpd.variable != node:\n                        return cpd", "break"),
+ ("contracts.c15", "BayesianNetwork.get_cpds", "pgmpy/models/BayesianNetwork.py", r'            if node not in self.nodes\(\):\n                raise ValueError\("Node not present in the Directed Graph"\)', '            if False:\n                raise ValueError("Node not present in the Directed Graph")', "break"),
 ]
 
 
